@@ -271,15 +271,15 @@ Qed.
 
 (* ---------- the whole IGS parser over the pixel kernel ---------- *)
 Lemma igs_kernel_run_ok (FS : Type) (fb_print : FS -> N -> FS * bool) es : forall w,
-  IgsInv (w_p xstate FS w) -> XInv (w_x xstate FS w) ->
+  IgsInvN (w_p xstate FS w) -> XInv (w_x xstate FS w) ->
   match igs_run xstate igs_x FS fb_print w es with
-  | Ok w' => IgsInv (w_p xstate FS w') /\ XInv (w_x xstate FS w')
-  | Panic s => s = SITE_IGS_LOOP_ARITH
+  | Ok w' => IgsInvN (w_p xstate FS w') /\ XInv (w_x xstate FS w')
+  | Panic _ => False
   end.
 Proof.
   intros w HI HX.
   pose proof (igs_run_post xstate igs_x FS fb_print es w HI) as A.
-  pose proof (igs_run_Q xstate igs_x FS fb_print XInv igs_x_inv es w HX) as B.
+  pose proof (igs_run_Q xstate igs_x FS fb_print XInv (fun x c ps s _ => igs_x_inv x c ps s) es w (proj2 HI) HX) as B.
   destruct (igs_run xstate igs_x FS fb_print w es); [split; assumption|exact A].
 Qed.
 
@@ -287,16 +287,16 @@ Definition igs_world_init (FS : Type) (fs : FS) : iworld xstate FS := {| w_p := 
 
 Lemma igs_stream_kernel_lemma (FS : Type) (fb_print : FS -> N -> FS * bool) (fs : FS) es :
   match igs_run xstate igs_x FS fb_print (igs_world_init FS fs) es with
-  | Ok w' => IgsInv (w_p xstate FS w') /\
+  | Ok w' => IgsInvN (w_p xstate FS w') /\
              match w_x xstate FS w' with
              | SOkE e => InvE e /\ exists px, igs_picture e = Ok px /\ Z.of_nat (length px) = 4 * (e_w e * e_h e)
              | SPanicE _ => False
              | SUnmodelledE => True
              end
-  | Panic s => s = SITE_IGS_LOOP_ARITH
+  | Panic _ => False
   end.
 Proof.
-  pose proof (igs_kernel_run_ok FS fb_print es (igs_world_init FS fs) ipars_new_inv iexec_new_inv) as Q.
+  pose proof (igs_kernel_run_ok FS fb_print es (igs_world_init FS fs) ipars_new_invN iexec_new_inv) as Q.
   destruct (igs_run xstate igs_x FS fb_print (igs_world_init FS fs) es) as [w'|s]; [|exact Q].
   destruct Q as [A B]. split; [exact A|]. destruct (w_x xstate FS w') as [e|p|]; simpl in B; [|contradiction|exact I].
   split; [exact B|apply igs_picture_ok; exact B].
